@@ -11,6 +11,9 @@ sites of that kind in the function at once, runs the owning properties' rules in
     tempret      return e -> _r = e; return _r
     negif        if c: A else: B -> if not c: B else: A   (both branches non-empty, no elif chain)
     kwreorder    keyword arguments of every call are reversed
+    kw2pos       f(a, k=b) -> f(a, b) when k is the next positional parameter of a callee defined in the package (resolved by name, unique definition)
+    pos2kw       f(a, b) -> f(a, k=b) for the last positional argument of such a callee
+    hoistarg     x = f(g(y)) -> zz_arg = g(y); x = f(zz_arg)   (first call-valued positional argument of an assigned / returned call, simple statements only)
 
 A VIOLATION on such a variant is a false alarm of the rules (to be fixed); an ANALYSIS-ERROR is an idiom the rules do not recognise (brittleness).
 No verdict of a check depends on this tool.
@@ -33,7 +36,7 @@ from sa.report import open_known  # noqa: E402
 from sa.source import SourceSet, repo_root  # noqa: E402
 from tools.mutants import _find  # noqa: E402
 
-KINDS = ("rename", "flipcmp", "unaug", "tempret", "negif", "kwreorder")
+KINDS = ("rename", "flipcmp", "unaug", "tempret", "negif", "kwreorder", "kw2pos", "pos2kw", "hoistarg")
 
 
 def _own_nodes(fn):
@@ -125,7 +128,72 @@ def transform(fn: ast.FunctionDef, kind: str) -> int:
                 x.keywords = list(reversed(x.keywords))
                 n += 1
         return n
+    if kind in ("kw2pos", "pos2kw"):
+        table = _callee_table()
+        for x in nodes:
+            if not isinstance(x, ast.Call) or any(isinstance(a, ast.Starred) for a in x.args) or any(k.arg is None for k in x.keywords):
+                continue
+            name = x.func.id if isinstance(x.func, ast.Name) else x.func.attr if isinstance(x.func, ast.Attribute) else None
+            params = table.get(name)
+            if not params:
+                continue
+            is_method = params[:1] in (["self"], ["cls"])
+            pp = params[1:] if is_method else params
+            if isinstance(x.func, ast.Name) and is_method:
+                continue  # class constructor through __init__ is keyed by class name below
+            if kind == "kw2pos" and x.keywords and len(x.args) < len(pp) and x.keywords[0].arg == pp[len(x.args)]:
+                x.args.append(x.keywords.pop(0).value)
+                n += 1
+            elif kind == "pos2kw" and x.args and len(x.args) <= len(pp) and not any(k.arg == pp[len(x.args) - 1] for k in x.keywords):
+                v = x.args.pop()
+                x.keywords.insert(0, ast.keyword(arg=pp[len(x.args)], value=v))
+                n += 1
+        return n
+    if kind == "hoistarg":
+        for parent in [fn] + nodes:
+            for field in ("body", "orelse", "finalbody"):
+                body = getattr(parent, field, None)
+                if not isinstance(body, list):
+                    continue
+                i = 0
+                while i < len(body):
+                    st = body[i]
+                    call = st.value if isinstance(st, (ast.Assign, ast.Return, ast.AnnAssign)) and isinstance(getattr(st, "value", None), ast.Call) else None
+                    if call is not None:
+                        j = next((k for k, a in enumerate(call.args) if isinstance(a, ast.Call)), None)
+                        if j is not None:
+                            tmp = f"zz_arg{n}"
+                            body.insert(i, ast.Assign(targets=[ast.Name(id=tmp, ctx=ast.Store())], value=call.args[j], lineno=st.lineno))
+                            call.args[j] = ast.Name(id=tmp, ctx=ast.Load())
+                            n += 1
+                            i += 1
+                    i += 1
+        return n
     raise ValueError(kind)
+
+
+_TABLE = None
+
+
+def _callee_table():
+    """name -> positional parameter names, for functions / methods / classes (via __init__) with a UNIQUE definition of that name in the package."""
+    global _TABLE
+    if _TABLE is None:
+        src = SourceSet.load(repo_root())
+        seen: Dict[str, List[List[str]]] = {}
+        for m in src:
+            for n in ast.walk(ast.parse(m.text)):
+                if isinstance(n, ast.FunctionDef):
+                    if n.args.vararg is not None:
+                        seen.setdefault(n.name, []).append([])
+                        continue
+                    seen.setdefault(n.name, []).append([a.arg for a in n.args.posonlyargs + n.args.args])
+                elif isinstance(n, ast.ClassDef):
+                    init = next((b for b in n.body if isinstance(b, ast.FunctionDef) and b.name == "__init__"), None)
+                    if init is not None and init.args.vararg is None:
+                        seen.setdefault(n.name, []).append([a.arg for a in init.args.args][1:])
+        _TABLE = {k: v[0] for k, v in seen.items() if len(v) == 1 and v[0] and not k.startswith("__")}
+    return _TABLE
 
 
 def _job(job) -> Dict[str, Any]:
